@@ -1,5 +1,5 @@
 """Correspondence for the source-to-Lean translator (gen/py2lean.py) and its run-time library (lean/Asn1/PyLite.lean):
-the *translation* of a function (driver ops KTAG, KLEN, KTOBYTES, KOIDENC, KOIDDEC, KTIME, KREAL) and the function itself in /repo are
+the *translation* of a function (driver ops KTAG, KLEN, KTOBYTES, KOIDENC, KOIDDEC, KTIME, KREAL, KREALDEC) and the function itself in /repo are
 run on the same arguments; the Python builtins PyLite transcribes (PYOP) are compared with CPython.
 
 A disagreement means the translator or PyLite misrepresents the code (machinery fault to repair) - it is reported as a
@@ -47,7 +47,7 @@ def _py(f, *a, **kw):
     return ('ok', r)
 
 
-def check(rep, drv, seed, n=400, which=('encodeTag', 'encodeLength', 'toBytes', 'oidEncode', 'oidDecode', 'timeCanon', 'realBin')):
+def check(rep, drv, seed, n=400, which=('encodeTag', 'encodeLength', 'toBytes', 'oidEncode', 'oidDecode', 'timeCanon', 'realBin', 'realDec')):
     """returns number of cases compared"""
     from pyasn1.codec.ber import encoder as benc, decoder as bdec
     from pyasn1.compat import integer
@@ -95,6 +95,14 @@ def check(rep, drv, seed, n=400, which=('encodeTag', 'encodeLength', 'toBytes', 
                 want = ('err', 'OverflowError')
             cmp_('PYOP', 'PYOP %s %d %d' % (op, a, ln), want)
 
+    # slices with arbitrary bounds and small powers
+    for _ in range(max(20, n // 10)):
+        t = [rng.randrange(256) for _ in range(rng.randrange(0, 7))]
+        i = rng.randrange(-9, 10)
+        cmp_('PYSL', 'PYSL from %d %s' % (i, ' '.join(map(str, t))), ('ok', t[i:]))
+        cmp_('PYSL', 'PYSL to %d %s' % (i, ' '.join(map(str, t))), ('ok', t[:i]))
+        a, b = rng.randrange(-5, 6), rng.randrange(0, 9)
+        cmp_('PYOP', 'PYOP pow %d %d' % (a, b), ('ok', [a ** b]))
     # fixed corners of int.to_bytes (length 0 accepts 0 and, signed, -1)
     for a in (-257, -256, -255, -129, -128, -127, -2, -1, 0, 1, 127, 128, 129, 255, 256, 257, 32767, 32768, -32768, -32769):
         for ln in (0, 1, 2, 3):
@@ -237,6 +245,44 @@ def check(rep, drv, seed, n=400, which=('encodeTag', 'encodeLength', 'toBytes', 
             renc._chooseEncBase = lambda value, _r=(ms, m, eb, e): _r
             impl = _py(lambda: list(renc.encodeValue(univ.Real((1, 2, 0)), None, None)[0]))
             cmp_('realBin', 'KREAL %d %d %d %d' % (ms, m, eb, e), impl)
+    if 'realDec' in which:
+        import io as _io
+
+        class Cap(Exception):
+            pass
+        rdec = bdec.RealPayloadDecoder()
+
+        def capture(asn1Spec, tagSet, value, **options):
+            raise Cap(value)
+        rdec._createComponent = capture
+        for i in range(n):
+            fo = 0x80 | rng.randrange(0x80)
+            r = rng.random()
+            if r < 0.15:
+                body = bytes(rng.randrange(256) for _ in range(rng.randrange(0, 3)))
+            else:
+                nn = (fo & 3) + 1
+                pre = b''
+                if nn == 4:
+                    nn = rng.choice([0, 1, 2, 3, 4, 5, 9])
+                    pre = bytes([nn if rng.random() < 0.9 else rng.randrange(256)])
+                eo = bytes(rng.choice([0, 1, 0x7f, 0x80, 0xff, rng.randrange(256)]) for _ in range(nn))
+                mant = bytes(rng.randrange(256) for _ in range(rng.choice([0, 1, 1, 2, 3, 8, 20])))
+                body = pre + eo + mant
+                if rng.random() < 0.1 and body:
+                    body = body[:rng.randrange(len(body))]
+            data = bytes([fo]) + body
+
+            def real():
+                try:
+                    for x in rdec.valueDecoder(_io.BytesIO(data), None, tagSet=univ.Real.tagSet, length=len(data)):
+                        pass
+                except Cap as c:
+                    v = c.args[0]
+                    return [int(v[0]), int(v[1]), int(v[2])]
+                return ['no-value']
+            impl = _py(real)
+            cmp_('realDec', 'KREALDEC %d %s' % (fo, ' '.join(str(b) for b in body)), impl)
     rep.count('kernel_correspondence', done)
     return done
 
